@@ -155,7 +155,7 @@ theorem nodeStage_drop_rejected {d : Defects} {s : Inst} {room : Nat} {b1 b2 : L
     refine List.Nodup.sublist (List.Sublist.map _ ?_) hd
     exact List.Sublist.append (List.Sublist.refl _) (List.sublist_cons_self _ _)
   rw [nodeStage_eta, nodeStage_eq_verdicts hd, nodeStage_eta d s room (b1 ++ b2), nodeStage_eq_verdicts hd']
-  simp [List.filter_append, List.filter_cons, hv]
+  simp [List.filter_append, hv]
 
 theorem edgeStage_single (d : Defects) (s : Inst) (room : Nat) (e : InEdge) :
     (edgeStage d s room [e]).1 =
@@ -206,5 +206,45 @@ def dayGuardBeforeFixes (s : Inst) (room : Nat) (b : Batch) : Bool := dayGuardD 
 /-- with every switch off nothing is excluded -/
 theorem dayGuardD_none (s : Inst) (room : Nat) (b : Batch) : dayGuardD Defects.none s room b = true := by
   simp [dayGuardD, edgeDelGuardD_none, nodeDelGuardD_none, nodeGuardD_none, edgeGuardD_none]
+
+/-! ### the switches a kind of record depends on -/
+
+/-- every check that bears on a received row or node deletion record is in place -/
+def Defects.rowsChecked (d : Defects) : Bool :=
+  !(d.authEntityUnchecked || d.jsonAbsentUnchecked || d.entityChangeUnchecked || d.roomlessReplaceUnchecked ||
+    d.delRoomUnchecked || d.delEntityUnchecked)
+
+/-- every check that bears on a received reference or reference deletion record is in place -/
+def Defects.refsChecked (d : Defects) : Bool :=
+  !(d.authEntityUnchecked || d.edgeSourceUnchecked || d.edgeReplaceUnchecked || d.delRoomUnchecked ||
+    d.edgeDelSourceUnchecked)
+
+theorem NodeOkD.of_checked {d : Defects} {s : Inst} {room : Nat} {n : InNode} (c : d.rowsChecked = true)
+    (h : NodeOkD d s room n) : NodeOk s room n := by
+  simp only [Defects.rowsChecked, Bool.not_eq_true', Bool.or_eq_false_iff] at c
+  obtain ⟨⟨⟨⟨⟨c1, c2⟩, c3⟩, c4⟩, _⟩, _⟩ := c
+  refine h.guarded ?_
+  unfold nodeGuardD
+  cases localRow s.nodes n.row.id <;> simp [c1, c2, c3, c4]
+
+theorem NodeDelOkD.of_checked {d : Defects} {s : Inst} {room : Nat} {r : InNodeDel} (c : d.rowsChecked = true)
+    (h : NodeDelOkD d s room r) : NodeDelOk s room r := by
+  simp only [Defects.rowsChecked, Bool.not_eq_true', Bool.or_eq_false_iff] at c
+  obtain ⟨⟨⟨⟨⟨c1, _⟩, _⟩, _⟩, c5⟩, c6⟩ := c
+  exact h.guarded (by simp [nodeDelGuardD, c1, c5, c6])
+
+theorem EdgeDelOkD.of_checked {d : Defects} {s : Inst} {room : Nat} {r : InEdgeDel} (c : d.refsChecked = true)
+    (h : EdgeDelOkD d s room r) : EdgeDelOk s room r := by
+  simp only [Defects.refsChecked, Bool.not_eq_true', Bool.or_eq_false_iff] at c
+  obtain ⟨⟨⟨⟨c1, _⟩, _⟩, c4⟩, c5⟩ := c
+  exact h.guarded (by simp [edgeDelGuardD, c1, c4, c5])
+
+theorem EdgeOkD.of_checked {d : Defects} {s : Inst} {room : Nat} {prev : Option EdgeRow} {e : InEdge}
+    (c : d.refsChecked = true) (h : EdgeOkD d s room prev e) : EdgeOk s room prev e := by
+  simp only [Defects.refsChecked, Bool.not_eq_true', Bool.or_eq_false_iff] at c
+  obtain ⟨⟨⟨⟨c1, c2⟩, c3⟩, _⟩, _⟩ := c
+  have hr := h.right
+  rw [c3] at hr
+  exact ⟨h.sig, h.known, h.data c1, h.source c2, hr⟩
 
 end Discret.Ingest
